@@ -237,7 +237,7 @@ func (x *Exec) verifyBody(fn *ssa.Function, c *Contract, res *FuncResult) {
 			defer func() {
 				if r := recover(); r != nil {
 					if ce, ok := r.(contractError); ok {
-						if e.Tag != "" && strings.Contains(string(ce), "was executed before this point") {
+						if e.Tag != "" && (strings.Contains(string(ce), "was executed before this point") || strings.Contains(string(ce), "unknown identifier")) {
 							// the clause is about a call the function no longer makes: a failing
 							// obligation (the others are still generated), not a malformed contract
 							f = "false"
